@@ -9,7 +9,7 @@ WT=/tmp/confirm-wt
 export CARGO_NET_OFFLINE=true RUSTC_BOOTSTRAP=1
 if [ ! -d $WT ]; then
   git -C /repo worktree add --detach $WT HEAD >/dev/null 2>&1 || exit 2
-  cp -r /repo/target $WT/target
+  cp -r /tmp/mut-template-target $WT/target
 fi
 cd $WT
 git checkout -q --detach $(git -C /repo rev-parse HEAD) 2>/dev/null
